@@ -303,11 +303,19 @@ func (p parCfg) String() string {
 	return fmt.Sprintf("max-cpu=%d batch-size=%d pool=%d yield=%d chunk=%d policy=%d stderr-chardev=%v", p.MaxCPU, p.BatchSize, p.Pool, p.Yield, p.Chunk, p.Policy, p.ErrNull)
 }
 
+// cpuArgs: the parallelism options of a configuration; MaxCPU -1 stands for --force-one-cpu.
+func (p parCfg) cpuArgs() []string {
+	if p.MaxCPU < 0 {
+		return []string{"--force-one-cpu", "--batch-size", fmt.Sprint(p.BatchSize)}
+	}
+	return []string{"--max-cpu", fmt.Sprint(p.MaxCPU), "--batch-size", fmt.Sprint(p.BatchSize)}
+}
+
 var refCfg = parCfg{MaxCPU: 2, BatchSize: 2000, Pool: 3, Yield: 0, Chunk: 0, Policy: 1}
 
 func drawParCfg(t *simrt.Tape, n int) parCfg {
 	var p parCfg
-	p.MaxCPU = []int{2, 1, 3, 4, 8, 32}[t.Choose(6)]
+	p.MaxCPU = []int{2, 1, 3, 4, 8, 32, -1}[t.Choose(7)]
 	half := n / 2
 	if half < 1 {
 		half = 1
@@ -333,7 +341,7 @@ func (c cmdCase) materialize(dir string) {
 
 func (c cmdCase) spec(dir string, p parCfg) CmdSpec {
 	sub := func(a string) string { return strings.ReplaceAll(a, "$D", dir) }
-	args := []string{"--max-cpu", fmt.Sprint(p.MaxCPU), "--batch-size", fmt.Sprint(p.BatchSize)}
+	args := p.cpuArgs()
 	for _, a := range c.Args {
 		args = append(args, sub(a))
 	}
